@@ -35,7 +35,18 @@ import traceback
 from typing import Any, Callable, Dict, List, Optional, Sequence
 
 ROOT = os.path.dirname(os.path.dirname(os.path.abspath(__file__)))
-NPROC = int(os.environ.get("VERIF_NPROC", "0")) or min(16, os.cpu_count() or 1)
+def _default_nproc():
+    n = min(16, os.cpu_count() or 1)
+    try:
+        load = os.getloadavg()[0]
+    except OSError:
+        load = 0.0
+    if load > 2 * n:  # shared, overloaded machine (several checks at once): do not make it worse
+        n = max(4, int(n * n / load))
+    return n
+
+
+NPROC = int(os.environ.get("VERIF_NPROC", "0")) or _default_nproc()
 
 
 class HarnessError(Exception):
